@@ -942,6 +942,7 @@ pub fn check_conc(
                   let mut uncancelled = scn.clone();
                   for th in uncancelled.threads.iter_mut() {
                     for o in th.iter_mut() {
+                      o.kind = o.kind.without_fault().clone();
                       if let OpKind::Stream { abort_at, .. } = &mut o.kind {
                         *abort_at = None;
                       }
@@ -1210,7 +1211,7 @@ pub fn check_conc(
     for (t, ops) in scn.threads.iter().enumerate() {
       for (i, op) in ops.iter().enumerate() {
         if let (OpKind::Stream { columns, .. }, Answer::Stream(s), Some(cid)) =
-          (&op.kind, &outcome.answers[t][i], root_cache(&scn.objects[op.obj]))
+          (op.kind.without_fault(), &outcome.answers[t][i], root_cache(&scn.objects[op.obj]))
         {
           by_cache.entry((cid, *columns)).or_default().push(s.borrowed.clone());
         }
@@ -1285,11 +1286,15 @@ pub fn check_conc(
       if matches!(op.kind, OpKind::ToWriter { .. }) {
         counters.inc("fault:writer_plan");
       }
+      if matches!(op.kind, OpKind::ChildFault { .. }) {
+        counters.inc("fault:collaborator_unwind_planned");
+      }
     }
   }
   for t in &outcome.answers {
     for a in t {
       match a {
+        Answer::Aborted { chunks_before: u32::MAX } => counters.inc("fault:collaborator_unwind_fired"),
         Answer::Aborted { .. } => counters.inc("fault:stream_cancelled_fired"),
         Answer::Written { io, .. } => {
           counters.add("fault:short_write_fired", io.short_writes);
@@ -1307,5 +1312,48 @@ pub fn check_conc(
     counters,
     outcome,
     skipped: None,
+  }
+}
+
+
+/// Post-pass over a generated scenario (own PRNG stream, so the scenario
+/// population itself is unchanged): in one scenario out of five, some ops on
+/// objects that contain a user-defined child source, and some stream ops on
+/// any object, get a one-shot collaborator fault armed (`OpKind::ChildFault`).
+pub fn inject_child_faults(scn: &mut Scenario, rng: &mut Rng) {
+  if !rng.chance(200) {
+    return;
+  }
+  let has_user: Vec<bool> = scn
+    .objects
+    .iter()
+    .map(|o| o.contains(&|n| matches!(n, TreeSpec::User { .. })))
+    .collect();
+  for th in scn.threads.iter_mut() {
+    for op in th.iter_mut() {
+      let base_ok = match &op.kind {
+        OpKind::Source
+        | OpKind::Buffer
+        | OpKind::Size
+        | OpKind::Rope
+        | OpKind::ToWriter { .. }
+        | OpKind::Map { .. }
+        | OpKind::Hash
+        | OpKind::UpdateHash => has_user.get(op.obj).copied().unwrap_or(false),
+        OpKind::Stream { abort_at: None, .. } => true,
+        OpKind::CloneThen { then } => {
+          has_user.get(op.obj).copied().unwrap_or(false)
+            && !matches!(**then, OpKind::Stream { abort_at: Some(_), .. })
+        }
+        _ => false,
+      };
+      if base_ok && rng.chance(350) {
+        // small countdowns dominate: the first few points are where a call
+        // has taken a lock or claimed a slot but not yet published
+        let at = if rng.chance(700) { rng.below(4) } else { rng.below(24) } as u32;
+        let then = Box::new(op.kind.clone());
+        op.kind = OpKind::ChildFault { at, then };
+      }
+    }
   }
 }
